@@ -255,6 +255,9 @@ func cmdCheck(args []string) int {
 		defer os.RemoveAll(filepath.Dir(cfg.WorkDir))
 	}
 	os.RemoveAll(cfg.WorkDir)
+	if !o.noWrite {
+		os.RemoveAll(filepath.Join(verifDir, "replays", o.id))
+	}
 	all := append(append([]*Obligation{}, obs...), vac...)
 	prog.solveAll(all, cfg)
 	// vacuity guards
